@@ -7,10 +7,56 @@ THEOREMS = ["C03_reachable_wf", "C03_decision_is_reported_list", "C03_add_presen
             "C03_total_counts_reported", "C03_lists_independent", "C03_delivery_uses_read_acl"]
 
 
+def emptied_list_histories(r, thorough):
+    """a list that excluded a member is emptied again by acknowledged removals (an empty list permits everybody) and read
+    back; a broadcast follows at once, before any JOIN / LEAVE: every member the reported list permits receives it.
+    Also the mirror image for narrowing: a member removed from a non-empty read list stops receiving at once."""
+    cases = []
+    for i in range(24 if thorough else 6):
+        cfg = sl.base_cfg(r, None)
+        cfg.update({"max_clients": 10, "max_subs": 10, "max_conns": 16, "max_channels": 100, "max_inflight": 10})
+        g = sl.Gen(r, cfg)
+        ks = sl._login(g, ["alice", "bob", "carol", "dave"])
+        ch = r.choice(sl.CHANNELS)
+        for u in ("alice", "bob", "carol", "dave"):
+            g.send(ks[u], sl.frame("JOIN", [("id", g.rid()), ("channel", ch)]), [])
+        live = [ks[u] for u in ("alice", "bob", "carol", "dave")]
+        ty = "read"
+        listed = r.sample(["alice", "bob", "carol", "dave"], r.choice([1, 2, 3]))
+        if "alice" not in listed and r.random() < 0.5:
+            listed.append("alice")
+        def setacl(action, names):
+            g.send(ks["alice"], sl.frame("SET_CHAN_ACL", [("id", g.rid()), ("channel", ch), ("type", ty), ("action", action), ("nids", [n + "@localhost" for n in names])]), [])
+        def report():
+            g.send(ks["alice"], sl.frame("GET_CHAN_ACL", [("id", g.rid()), ("channel", ch), ("type", ty)]), [])
+        def publish(k):
+            g.send(k, sl.frame("BROADCAST", [("id", g.rid()), ("channel", ch), ("length", 5), ("qos", 1)], b"probe"), [])
+            g.ops[-1]["members_live"] = list(live)
+        setacl("add", listed)
+        report()
+        publish(ks["alice"])
+        # take the entries away again, in one batch or one by one, in a random order
+        order = listed[:]
+        r.shuffle(order)
+        if i % 3 == 0:
+            setacl("remove", order)
+        else:
+            for n in order:
+                setacl("remove", [n])
+                if r.random() < 0.4:
+                    report()
+                    publish(r.choice(live))
+        report()
+        publish(ks["alice"])
+        publish(ks[r.choice(["bob", "carol"])])
+        cases.append({"cfg": cfg, "ops": g.ops})
+    return cases
+
+
 def acl_histories(r, thorough):
-    return sl.acl_histories(r, thorough) + sl.two_list_histories(r, thorough)
+    return sl.acl_histories(r, thorough) + sl.two_list_histories(r, thorough) + emptied_list_histories(r, thorough)
 
 
 def run(tier, replay=None):
     return srvprops.run(PROP, THEOREMS, tier, replay, extra_gen=acl_histories,
-                        rule_note="plus directed ACL histories: random add/remove batches on one list, read back, probed by every user")
+                        rule_note="plus directed ACL histories: random add/remove batches on one list, read back, probed by every user; plus emptied-list histories (a read list that excluded members is emptied again by acknowledged removals, read back, and a broadcast follows at once: every member the reported list permits receives it)")
